@@ -1826,7 +1826,8 @@ func (c *Ctx) rulesR4bounds2() {
 					if kk, isK := constInt(other); isK {
 						switch {
 						case kk == 0 && ((op == token.GEQ && holds) || (op == token.LSS && !holds)),
-							kk == -1 && ((op == token.GTR && holds) || (op == token.LEQ && !holds) || (op == token.NEQ && holds) || (op == token.EQL && !holds)):
+							kk == -1 && ((op == token.GTR && holds) || (op == token.LEQ && !holds)):
+							// "!= -1" is not a lower bound: the signature allows any int
 							lower = true
 						}
 					}
